@@ -98,6 +98,7 @@ Advance == l' = l + 1
 Keep == st' = st /\ keyS' = keyS
 KeyStep(rule) == keyS' = CASE rule = "push" -> Append(keyS, Ev.obs.key)
                            [] rule = "restored" -> (IF Len(keyS) >= 2 THEN Front(keyS) ELSE keyS)
+                           [] rule = "set" -> Append(Front(keyS), Ev.obs.key)      \* an edit: the key legitimately changes
                            [] OTHER -> keyS
 \* accept the event with model successor s; differences are reported and the model resynchronised
 Accept(s0, why, rule) ==
@@ -122,7 +123,7 @@ TReset ==
         ELSE /\ (IF d = {} THEN TRUE ELSE Bad("a freshly set-up board is not what was set up", d, Detail(s)))
              /\ st' = s /\ keyS' = <<Ev.obs.key>> /\ mode' = "ok" /\ Advance
 
-TSkipped == Ev.ev \notin {"Reset", "GReset", "CliReset"} /\ mode = "skip" /\ Keep /\ mode' = "skip" /\ Advance
+TSkipped == Ev.ev \notin {"Reset", "GReset", "CliReset", "EReset"} /\ mode = "skip" /\ Keep /\ mode' = "skip" /\ Advance
 
 TApply ==
   /\ Ev.ev = "Apply" /\ mode = "ok"
@@ -181,6 +182,30 @@ TEnding ==
         ELSE IF ~(rep \/ fifty) /\ Ev.res = "draw" THEN Reject(st, "draw reported too early", info, "stable")
         ELSE IF ~(rep \/ fifty) /\ Ev.res # v THEN Reject(st, "game ending differs", info, "stable")
         ELSE Accept(st, "game_ending changed the board", "stable")
+
+(***************************************************************************)
+(* Direct editing of a board (Board::new, put, remove, lose_castle_rights,  *)
+(* push/pop_en_passant_target): the set-up API of the properties.  A put on *)
+(* an occupied square is refused and changes nothing; every state's key is  *)
+(* the XOR of the constants of what is on the board (C05, "direct set-up"). *)
+(***************************************************************************)
+TEReset == Ev.ev = "EReset" /\ \E s \in {EmptyEngine} :
+             /\ (IF DiffSet(s, "none") \ {"inv"} = {} THEN TRUE ELSE Bad("a new board is not the empty board", DiffSet(s, "none"), Detail(s)))
+             /\ st' = s /\ keyS' = <<Ev.obs.key>> /\ mode' = "ok" /\ Advance
+TPut ==
+  /\ Ev.ev = "Put" /\ mode = "ok"
+  /\ IF st.b[Ev.sq] = 0
+     THEN (IF Ev.res # "ok" THEN Reject(st, "putting a piece on an empty square was refused", Ev.res, "none")
+           ELSE Accept(Put(st, Ev.sq, Ev.code), "state after put differs", "set"))
+     ELSE (IF Ev.res # "err" THEN Reject(st, "putting a piece on an occupied square was not refused", Ev.res, "none")
+           ELSE Accept(st, "a refused put changed the board", "stable"))
+TRemove ==
+  /\ Ev.ev = "Remove" /\ mode = "ok"
+  /\ IF Ev.res # st.b[Ev.sq] THEN Reject(Remove(st, Ev.sq), "remove returned the wrong piece", <<Ev.res, st.b[Ev.sq]>>, "set")
+     ELSE Accept(Remove(st, Ev.sq), "state after remove differs", "set")
+TLoseRights == Ev.ev = "LoseRights" /\ mode = "ok" /\ Accept(LoseRights(st, Ev.mask), "state after lose_castle_rights differs", "set")
+TPushEp == Ev.ev = "PushEp" /\ mode = "ok" /\ Accept(PushEp(st, Ev.sq), "state after push_en_passant_target differs", "set")
+TPopEp == Ev.ev = "PopEp" /\ mode = "ok" /\ Len(st.epS) >= 2 /\ Accept(PopEp(st), "state after pop_en_passant_target differs", "set")
 
 (***************************************************************************)
 (* Game-level events (Game API): typed input, engine move, game over       *)
@@ -342,7 +367,8 @@ TGEnding ==
 
 Init == l = 2 /\ st = EmptyEngine /\ keyS = << >> /\ mode = "skip"
 Next == l <= NRec /\ (TReset \/ TSkipped \/ TApply \/ TUndo \/ TToggle \/ TCount \/ TUncount \/ TQuery \/ TEnding
-                       \/ TGReset \/ TGToggle \/ TCoordBatch \/ TCoord \/ TLabelBatch \/ TLabel \/ TEngineMove \/ TGEnding \/ TBookEdges \/ TSearch \/ TCli \/ TCliReset \/ TWatch \/ TWatchEnd)
+                       \/ TGReset \/ TGToggle \/ TCoordBatch \/ TCoord \/ TLabelBatch \/ TLabel \/ TEngineMove \/ TGEnding \/ TBookEdges \/ TSearch \/ TCli \/ TCliReset \/ TWatch \/ TWatchEnd
+                       \/ TEReset \/ TPut \/ TRemove \/ TLoseRights \/ TPushEp \/ TPopEp)
 Spec == Init /\ [][Next]_vars
 
 \* the model itself must stay sane (a failure here is a defect of the specification, not of the code)
